@@ -371,6 +371,23 @@ Theorem C10_flush_writes_what_buckets_own :
 Proof. exact flush_writes_own. Qed.
 Print Assumptions C10_flush_writes_what_buckets_own.
 
-(* PARTIAL: the last link -- load of objects whose contents are pairwise key-disjoint [own] images rebuilds
-   exactly the postings, hence abs (load (flush s)) = abs s -- is not proved; it is compared on every run
+(* the load side: through a manifest, the posting of key j is the entry of the LAST manifest file that lists j,
+   tagged with that file's bucket id -- a function of the manifest and the referenced files alone (files that
+   are well-formed: distinct keys, no tombstone; [owned] never writes an empty id list).  No mixture with
+   anything else in the store, no dependence on unreferenced objects. *)
+From Verif Require Import BTree.ProofsLoad.
+
+Theorem C10_load_reads_manifest_files :
+  forall sz (st : bstore) mf maxb ver s,
+    get path_eq_dec st PMeta = Some (OMeta mf maxb ver) -> mf <> [] ->
+    (forall b g ps, In (b, g) mf -> get path_eq_dec st (PBucket b g) = Some (OBucket ps) -> WfFile ps) ->
+    load sz st = Some s ->
+    (forall j, alookup j (postings s) = find_file (get path_eq_dec st) mf j) /\
+    manifest s = mf /\ version s = ver /\ last_saved s = ver /\ max_bid s = maxb.
+Proof. exact load_manifest_postings. Qed.
+Print Assumptions C10_load_reads_manifest_files.
+
+(* PARTIAL: what remains of abs (load (flush s)) = abs s is the store invariant "every clean bucket's committed
+   file is its [own] image" carried along histories (C10_flush_writes_what_buckets_own gives it for the dirty
+   ones, C10_load_reads_manifest_files turns files into postings); it is compared on every run
    (flush dumps, reload after every quiet window, dirty-tracking probes). *)
